@@ -40,3 +40,30 @@ claim("C05",
       "and the array->score->array round trip are not decided.",
       _NOTE, "ast rules: schema/arity agreement, call-signature conformance over resolved callees, sort-idiom "
              "recognition, field-set inclusion", "DESIGN.md §4 C05")
+
+claim("C12",
+      "Static analysis (level other): the pitch, key, interval, accidental, duration and clef tables are constant-folded "
+      "from their initialisers and checked exhaustively (all 12 pitch classes, 15+15 keys, 39 interval classes, 56+11+35 "
+      "duration rows, all code tables) against twelve-tone / circle-of-fifths / dotted-duration identities and "
+      "inverse-table laws; the fifths lookup is bounded below before the subscript; library names resolve; the "
+      "scalar/array dispatch returns on every branch and rounds before converting. Conversion *formulas* are not decided.",
+      _NOTE, "constant folding of module-level tables + exhaustive finite checks; CFG dominator rule for the one-sided bound",
+      "DESIGN.md §3 F3, §4 C12")
+
+claim("C06",
+      "Static analysis (level other): decides structural clauses of performance MIDI export/import — definite assignment "
+      "on every accepted input kind, ordering of the cross-track tempo list before the first-later-entry scan, agreement "
+      "of the ppq/mpq used in the tick formula with the header and with what the importer passes on, round-before-int at "
+      "all 7 tick conversions, (channel,pitch) note pairing with the zero-velocity rule in both readers, id sort key, "
+      "message-kind coverage. Equality of the reloaded performance is not decided.",
+      _NOTE, "ast/CFG rules: definite assignment, dominance of a sort over consumers, def-use agreement, guard normal forms",
+      "DESIGN.md §4 C06")
+
+claim("C04",
+      "Static analysis (level other): decides structural clauses of score MIDI export — parameter-to-sink flow of the "
+      "requested velocity, round-before-int at the division->tick conversion, def-use chain of ticks-per-quarter (lcm of "
+      "all parts, doubling only, same variable in header and converter, every event time converted), exhaustive 0..5 mode "
+      "dispatch on both sides, pickup policies with raising else, tie chains exported as one note. Note multiset equality "
+      "after re-import is not decided.",
+      _NOTE, "ast rules: taint from parameter to constructor keyword, def-use agreement, dispatch-table lifting",
+      "DESIGN.md §4 C04")
